@@ -2090,6 +2090,28 @@ def every_row_rules(ctx, R, cc, LS, tests, main_test):
               'the loop over the constraint rows %s' % ('is restricted by %s' % restr if restr else ('can be skipped as a whole' if not whole else 'can be left before the rows are exhausted (`break` / `return`)')), cc.site(lo[0].bb))
 
 
+def wrap_only_variant(ctx, b, c):
+    """for `x.into()` / `T::from(x)` producing a v1::Function: the variant of function::Function the crate impl `From<X> for v1::Function` wraps
+    x into, if that impl does nothing else (one path, no calls, the argument handed on unchanged); 'other' for a wrap into a variant that is
+    none of Constant / Linear / Quadratic or for the identity wrap of an already built enum value; None if the impl is not a plain wrap"""
+    a = c.args[0]
+    if a['k'] not in ('copy', 'move'): return None
+    xt = re.sub(r"^&('\w+ )?(mut )?", '', b.locals[a['pl']['l']]).strip() if not a['pl']['p'] else None
+    impls = [ib for ib in ctx.F.bodies.values() if ib.kind == 'fn' and ib.hdr.get('item') == 'from' and (ib.hdr.get('self') or '') == 'v1::Function'
+             and (ib.hdr.get('trait') or '').endswith('convert::From') and (xt is None or [t.replace(' ', '') for t in ib.hdr.get('targs', [])] == [xt.replace(' ', '')])]
+    if len(impls) != 1: return None
+    ib = impls[0]
+    if ib.calls or any(ib.blocks[x]['term']['k'] == 'switch' for x in ib.live): return None
+    ctx.functions.add(ib.name)
+    wraps = [st for bi, st in ib.stmts() if st['rv']['k'] == 'agg' and 'function::Function::' in st['rv']['adt']]
+    outer = [st for bi, st in ib.stmts() if st['rv']['k'] == 'agg' and st['rv']['adt'].endswith('v1::Function')]
+    if len(outer) != 1: return None
+    if not wraps: return 'other'
+    if len(wraps) != 1 or len(wraps[0]['rv']['ops']) != 1 or T.strip_wrappers(T.expr(ib, wraps[0]['rv']['ops'][0])) != ('place', 1, []): return None
+    v = wraps[0]['rv']['adt'].split('::')[-1]
+    return v if v in ('Constant', 'Linear', 'Quadratic') else 'other'
+
+
 def wrap_rules(ctx):
     """wrap_function(quad, linear, constant): whatever representation is chosen, the constant and the linear part are in it"""
     R = 'C19.convert.wrap'
@@ -2120,23 +2142,33 @@ def wrap_rules(ctx):
         if same: return True
         via = {w[0] for w in writes if w[0] != agg_bb}
         return bool(via) and T.must_pass(b, 0, {agg_bb}, via)
+    # where a form of the function is built: (block, index in block, the payload operand).  FORM_SITE_IDIOMS:
+    #   `v1::function::Function::Linear(linear)` written out (an aggregate in this body)
+    #   `linear.into()` / `v1::Function::from(linear)` through a crate `From<X> for v1::Function` impl whose body does nothing but wrap its
+    #   argument into one variant (wrap_only_variant reads the impl's body; an impl that computes or normalises is not accepted)
     forms = {'Constant': [], 'Linear': [], 'Quadratic': []}
+    opaque = []
     for bi in sorted(b.live):
         for si, st in enumerate(b.blocks[bi]['st']):
             if 'dst' in st and st['rv']['k'] == 'agg':
                 for f in forms:
-                    if st['rv']['adt'].endswith('function::Function::' + f): forms[f].append((bi, si, st))
-    probs = []
-    for bi, si, st in forms['Constant']:
-        if not is_const_param(st['rv']['ops'][0]): probs.append('Function::Constant is not built from the constant')
-    for bi, si, st in forms['Linear']:
-        r = root_of(st['rv']['ops'][0])
+                    if st['rv']['adt'].endswith('function::Function::' + f): forms[f].append((bi, si, st['rv']['ops'][0]))
+    for c in b.calls:
+        if c.item in ('into', 'from') and len(c.args) == 1 and not c.dst['p'] and re.sub(r"^&('\w+ )?(mut )?", '', b.locals[c.dst['l']]).strip().endswith('v1::Function'):
+            v = wrap_only_variant(ctx, b, c)
+            if v in forms: forms[v].append((c.bb, len(b.blocks[c.bb]['st']), c.args[0]))
+            elif v is None: opaque.append(b.site(c.bb))
+    probs = ['a v1::Function is produced by a conversion that is not a plain wrap at %s' % opaque[:3]] if opaque else []
+    for bi, si, op in forms['Constant']:
+        if not is_const_param(op): probs.append('Function::Constant is not built from the constant')
+    for bi, si, op in forms['Linear']:
+        r = root_of(op)
         if not preceded(bi, si, [w for w in cw if w[2] == r]): probs.append('a Function::Linear is built without `linear.constant = constant` on the way')
     ctx.check(not probs and (forms['Constant'] or forms['Linear'] or forms['Quadratic']), R + '/constant-kept', 'T-CARRY', b.name,
               'the constant is not carried into every form (constant / linear / quadratic): %s' % '; '.join(probs), b.site())
     probs = []
-    for bi, si, st in forms['Quadratic']:
-        r = root_of(st['rv']['ops'][0])
+    for bi, si, op in forms['Quadratic']:
+        r = root_of(op)
         mine = [w for w in lw if w[2] == r]
         if not preceded(bi, si, mine): probs.append('a Function::Quadratic is built without `quad.linear = Some(linear)` on the way'); continue
         lin = {w[3] for w in mine}
